@@ -58,7 +58,7 @@ fn run(ctx: &Ctx, _mode: &str) -> Report {
     let mut report = Report::default();
     let profile = Profile::base();
     let k = ctx.tier.pick(3usize, 5usize);
-    let cases = ctx.cases(360, 6000);
+    let cases = ctx.cases(360, 3600);
     let counter = std::cell::Cell::new(0u64);
     search(ctx, 1, cases, 60..400, &mut report, |choices, rep, shrinking| {
         let mut g = Gen::new(choices, &profile);
